@@ -155,14 +155,16 @@ fn oracle_c01(case: &Case, outs: &[ImplRes]) -> Result<(), String> {
     let f = spec::frame(&p);
     let (ph, fh) = (hex(&p), hex(&f));
     for (line, o) in case.lines.iter().zip(outs) {
-        let op = line.split(' ').next().unwrap();
+        let toks: Vec<&str> = line.split(' ').collect();
+        let op = toks[0];
+        let rep = |s: &str, n: usize| vec![s; n].join(" ");
         let want = match op {
             "enc" => format!("ok:{}", fh),
-            "enci" => format!("{} NNN", fh),
+            "enci" => format!("{} {}", fh, "N".repeat(toks[2].parse().unwrap_or(0))),
             "dec" => format!("{}:ok:{} {}:F:-", f.len(), ph, f.len()),
             "decode" => format!("ok:{}", ph),
-            "iter" => format!("ok:{} | N N", ph),
-            "rdr" => format!("ok:{} none none", ph),
+            "iter" => format!("ok:{} | {}", ph, rep("N", toks[3].parse().unwrap_or(0))),
+            "rdr" => format!("ok:{} {}", ph, rep("none", toks[3].len() - 1)),
             _ => continue,
         };
         expect_eq(&format!("round trip via `{}`", op), o.text, &want)?;
@@ -183,7 +185,7 @@ fn oracle_c07(case: &Case, outs: &[ImplRes]) -> Result<(), String> {
                 let want = if fits { format!("ok:{}", fh) } else { "oom".to_string() };
                 expect_eq(&format!("buffer encoder with capacity {}", toks[1]), o.text, &want)?;
             }
-            "enci" => expect_eq("iterator encoder", o.text, &format!("{} NNNNNNNN", fh))?,
+            "enci" => expect_eq("iterator encoder", o.text, &format!("{} {}", fh, "N".repeat(toks[2].parse().unwrap_or(0))))?,
             _ => {}
         }
     }
@@ -318,7 +320,8 @@ fn oracle_c15(case: &Case, outs: &[ImplRes]) -> Result<(), String> {
                     want.push(fin.clone());
                 }
                 let w = if want.is_empty() { "-".to_string() } else { want.join(" ") };
-                expect_eq("decode_streaming()", o.text, &format!("{} | N N", w))?;
+                let k: usize = line.split(' ').nth(3).and_then(|t| t.parse().ok()).unwrap_or(2);
+                expect_eq("decode_streaming()", o.text, &format!("{} | {}", w, vec!["N"; k].join(" ")))?;
             }
             "rdr" => {
                 let mut want = ref_items.clone();
